@@ -68,4 +68,14 @@ PalDry == <<CreateDry(WB), CreateDry(A2), CreateDry(AB), SetAcctDry("B", "v"), C
 \* C14 / C16: previews of the other kinds of write (revert, metadata on transactions and accounts, scripts writing account metadata)
 PalDry2 == <<RevertDry(0, FALSE), RevertDry(0, TRUE), SetTxDry(0), DelTxDry(0), DelAcctDry("B"), CreateMetaDry(WC),
              Revert(0, FALSE), SetTx(0), Create(AB, "lit")>>
+\* four concurrent requests (thorough tier): the first seven entries of each palette
+First7(p) == SubSeq(p, 1, IF Len(p) < 7 THEN Len(p) ELSE 7)
+PalFunds4 == First7(PalFunds)
+PalRef4 == First7(PalRef)
+PalIk4 == First7(PalIk)
+PalRevert4 == First7(PalRevert)
+PalKinds4 == First7(PalKinds)
+PalRestart4 == First7(PalRestart)
+PalDry4 == First7(PalDry)
+PalDry24 == First7(PalDry2)
 =============================================================================
